@@ -463,3 +463,142 @@ PROPS['C18'] = {
     'trusted': ['math.Pow of the installed Go toolchain as the reference for the special-case table'],
     'validate_per_harness': 3,
 }
+
+
+# ---------------------------------------------------------------- C06 / C13 (encoding half): default text output
+def lz_pairs(tier, seed, n_extra=10):
+    """(digit count L, trailing zeros z) classes of the coefficient used by the formatting checks"""
+    allp = [(L, z) for L in range(1, 36) for z in range(0, L)]
+    if tier != 'quick':
+        return allp
+    import random
+    rng = random.Random(seed * 7 + 1)
+    keep = {(1, 0), (2, 0), (2, 1), (3, 1), (7, 2), (16, 0), (17, 3), (19, 0), (19, 18), (20, 0), (20, 1), (20, 19), (21, 0), (21, 2),
+            (22, 21), (33, 0), (34, 0), (34, 1), (34, 33), (35, 0), (35, 1), (35, 34)}
+    rest = [p for p in allp if p not in keep]
+    keep.update(rng.sample(rest, n_extra))
+    return sorted(keep)
+
+
+C06_ADJ = list(range(-8, 9)) + [18, 19, 20, 21] + list(range(102, 110))
+
+
+def c06_jobs(tier, seed, whiches=tuple(range(10))):
+    import random
+    rng = random.Random(seed)
+    pairs = lz_pairs(tier, seed)
+    jobs = []
+    if tier == 'quick':
+        for w in whiches:
+            for adj in C06_ADJ:
+                if w == 5 and adj >= 100:
+                    continue
+                for (L, z) in rng.sample(pairs, 8 if len(whiches) < 4 else 5):
+                    jobs.append(('vh_c06_text', [w, L, z, adj]))
+    else:
+        k = 0
+        for (L, z) in pairs:
+            for adj in C06_ADJ:
+                k += 1
+                w = whiches[k % len(whiches)]
+                if w == 5 and adj >= 100:
+                    w = whiches[(k + 1) % len(whiches)]
+                    if w == 5:
+                        continue
+                jobs.append(('vh_c06_text', [w, L, z, adj]))
+    for w in whiches:
+        if w <= 2:
+            for cls in (0, 1, 2, 3):
+                jobs.append(('vh_c06_special', [w, cls]))
+    return jobs
+
+
+PROPS['C06'] = {
+    'jobs': c06_jobs,
+    'must_reach': ['C06:text', 'C06:roundtrip', 'C06:zero', 'C06:special', 'digits:lemma'],
+    'bounds': {'quick': 'MarshalText, String, Append/Format with precision -1 (e, E, f, g, G), Decimal.Append("v"), Decimal.Format(State, v) on every finite Decimal whose coefficient has L digits of which z are trailing zeros, for 32 (L,z) classes (22 boundary + 10 seeded of all 630) x decimal exponent of the leading digit in {-8..8, 18..21} individually and in the classes [-9,-5], [-99,-10], [-999,-100], <=-1000, [6,9], [10,99], [100,999], >=1000 (exponent symbolic inside a class; 2 seeded (L,z) classes per entry point and exponent class); coefficient, sign and exponent symbolic; the produced bytes are read back by an independent numeral reader (exact value, sign, no superfluous digits, form thresholds, exponent layout) and fed to the real UnmarshalText / Parse / Scan (stub ScanState); zeros of any exponent, NaN, +-Inf. Decimal.digits is replaced by its contract, which is proved against the real body for the same (L,z) classes.',
+               'thorough': 'all 630 (L,z) classes x all 29 exponent classes, entry points rotated over the configurations.'},
+    'outside': "'f' with precision -1 for exponents outside -8..21 (output length grows with the exponent); %v through the real fmt package (a stub fmt.State is used); fmt.Sscan through the real fmt package (a stub ScanState is used)",
+    'assumptions': ['assume-guarantee: Decimal.digits is replaced by its contract over mathematical integers (vh_lemma_Decimal_digits proves real body == contract per (L,z) class on every run)',
+                    'fmt.State / fmt.ScanState replaced by small concrete stubs following the interface documentation'],
+    'validate_per_harness': 6,
+    'job_budget': {'quick': 300, 'thorough': 600},
+}
+
+
+def c13_jobs2(tier, seed):
+    jobs = c13_jobs(tier, seed)
+    jobs += c06_jobs(tier, seed, whiches=(2,))
+    return jobs
+
+
+PROPS['C13']['jobs'] = c13_jobs2
+PROPS['C13']['must_reach'] += ['C13:marshal', 'C13:unsupported', 'C06:roundtrip', 'digits:lemma']
+PROPS['C13']['bounds'] = {
+    'quick': PROPS['C13']['bounds']['quick'] + ' MarshalJSON: every finite Decimal in 32 (digit count, trailing zeros) coefficient classes (22 boundary + 10 seeded of 630) x 29 classes of the decimal exponent of the leading digit (-8..8, 18..21 individually; [-9,-7], [-99,-10], [-999,-100], <=-1000, [20,99], [100,999], >=1000 with the exponent symbolic), 8 seeded coefficient classes per exponent class: output accepted by an independent RFC 8259 number recogniser, denotes the value exactly with its sign and no superfluous digits, positional/exponent thresholds, and the real UnmarshalJSON on it returns the same value and sign; zeros; NaN/Inf give *json.UnsupportedValueError. Decimal.digits is replaced by its contract (proved against the real body for the same classes).',
+    'thorough': PROPS['C13']['bounds']['thorough'] + ' MarshalJSON for all 630 coefficient classes x 29 exponent classes.'}
+PROPS['C13']['outside'] = 'encoding/json plumbing (structs, slices, maps) is replaced by its documented contract (it calls MarshalJSON / hands UnmarshalJSON the raw token); UnmarshalJSON inputs longer than the stated bound'
+PROPS['C13']['assumptions'] += ['assume-guarantee: Decimal.digits is replaced by its contract (vh_lemma_Decimal_digits)']
+
+
+# ---------------------------------------------------------------- C07: formatting with a precision
+C07_PRECS = [-1, 0, 1, 2, 3, 4, 5, 6, 7, 15, 33, 34, 35, 40]
+C07_ADJ = list(range(-8, 10)) + [20, 21, 99, 100, 999, 1000, -99, -100, -1000, 6100, -6100]
+C07_WIDTHS = [0, 1, 7, 15, 30, 45]
+
+
+def c07_jobs(tier, seed):
+    import random
+    rng = random.Random(seed * 13 + 5)
+    pairs = lz_pairs(tier, seed)
+    jobs = []
+    seen = set()
+
+    def add(v, p, L, z, adj, fl, w):
+        if v in (2, 3) and not (-8 <= adj <= 21):
+            return
+        if L > 0 and not (-6176 <= adj - (L - 1) <= 6111):
+            return
+        key = (v, p, L, z, adj, fl, w)
+        if key in seen:
+            return
+        seen.add(key)
+        jobs.append(('vh_c07', list(key)))
+
+    # boundary configurations that are always run
+    for v in range(6):
+        for p in (-1, 0, 1, 6):
+            add(v, p, 0, 0, 0, rng.randrange(32), rng.choice(C07_WIDTHS))        # zeros
+        for (L, z) in ((1, 0), (2, 0), (3, 2)):
+            for adj in (-2, -1, 0, 1):
+                for p in (0, 1, 2):
+                    add(v, p, L, z, adj, 0, 0)                                   # ties with few digits
+    for v in (4, 5):
+        for P in range(1, 8):
+            for adj in (P - 1, P, -5, -4):
+                for (L, z) in rng.sample([q for q in pairs if q[0] - q[1] > P], 2):
+                    add(v, P, L, z, adj, rng.choice([0, 4]), 0)                  # g switch-over around a carry
+    for fl in range(32):
+        for w in (7, 30):
+            add(rng.randrange(6), rng.choice([-1, 2, 5]), 3, 0, rng.choice([-3, 0, 2, 9]), fl, w)   # every flag set
+    n = 1000 if tier == 'quick' else 40000
+    tries = 0
+    while len(jobs) < n and tries < n * 5:
+        tries += 1
+        L, z = rng.choice(pairs)
+        P = rng.choice(C07_PRECS + [max(0, L - z - 1), L - z, L - z + 1])
+        add(rng.randrange(6), P, L, z, rng.choice(C07_ADJ), rng.randrange(32), rng.choice(C07_WIDTHS))
+    return jobs
+
+
+PROPS['C07'] = {
+    'jobs': c07_jobs,
+    'must_reach': ['C07:layout', 'C07:e', 'C07:f', 'C07:g', 'C07:zero', 'digits:lemma'],
+    'bounds': {'quick': 'Decimal.Format (stub fmt.State), Decimal.Append(spec) and package-level Append for verbs e,E,f,F,g,G: 1000 configurations = boundary ones (zeros, ties with one to three digits, the g switch-over around a rounding carry for precisions 1..7, every one of the 32 flag sets) plus a seeded sample of verb x precision {absent,0..7,15,33,34,35,40, n-1,n,n+1} x 32 coefficient classes (digit count L, trailing zeros z; of 630) x leading-digit exponent {-8..9,20,21,+-99,+-100,999,+-1000,+-6100} (f/F: -8..21) x 32 flag sets x width {0,1,7,15,30,45}; inside a configuration the coefficient and the sign are symbolic. Oracle: exact value rounded half-to-even over mathematical integers, read back from the produced bytes by an independent numeral reader; fraction-digit counts, g form rule, # and sign flags; padding against an independent model of the fmt rules; Append(spec) == Format(State); package Append == Format without flags.',
+               'thorough': '40000 seeded configurations over all 630 coefficient classes.'},
+    'outside': "the real fmt package is not executed: a stub fmt.State hands Decimal.Format every combination of flags, including '-' together with '0' as fmt of go1.23+ reports them; Sprintf's own verb parsing is replaced by that stub; widths above 45, precisions above 40; f/F for exponents outside -8..21 (output length grows with the exponent); invalid verbs / malformed spec strings",
+    'assumptions': ['assume-guarantee: Decimal.digits is replaced by its contract (vh_lemma_Decimal_digits proves real body == contract per (L,z) class on every run)',
+                    'the layout rules are those package fmt documents for floating-point verbs (the harness oracle was compared natively against fmt.Sprintf on float64 during development)'],
+    'validate_per_harness': 12,
+    'job_budget': {'quick': 300, 'thorough': 600},
+}
